@@ -193,6 +193,21 @@ def vt_result(ctx: Ctx, rule: str) -> None:
                "" if oks and len(pin) == 1 else "the per-image listing is not taken for exactly the iterated image")
 
 
+def companion_snapshots(ctx: Ctx, rule: str) -> None:
+    """savevm stores the vm state in one image and gives every other image a snapshot of the same name with vm-state size 0: 'every image
+    carries a state of that name' must therefore intersect snapshot NAMES, with the size test (on vs off) as a separate question."""
+    fref = SITES[0][0]
+    fn = ctx.repo.func(fref)
+    loop = _image_loop(ctx, fref)
+    per_image = [s_ for s_ in loop.body if isinstance(s_, ast.Assign) and isinstance(s_.targets[0], ast.Name) and any(call_name(c) == "show" for c in calls_in(s_))]
+    only_filtered = len(per_image) == 1 and ast.unparse(per_image[0].value) in ("set(super().show(image_params, object=object))", "super().show(image_params, object=object)") \
+        and not any(call_name(c) in ("snapshot_list", "_parse_states") for c in calls_in(fn.node))
+    ctx.record(rule, "TABLE", fref, "the per-image sets that are intersected are snapshot names of any vm-state size; 'running vm' (size > 0) is required of some image, not of every image",
+               not only_filtered, {"per_image": [ast.unparse(s_.value) for s_ in per_image]},
+               "" if not only_filtered else "every image's listing is filtered by vm-state size > 0 before intersecting: the 0-size companion snapshots that savevm leaves on the "
+               "other images veto the vm state, so a vm with two or more images never lists a vm state")
+
+
 def ramfile_guard(ctx: Ctx, rule: str) -> None:
     fref = SITES[1][0]
     fn = ctx.repo.func(fref)
@@ -385,6 +400,7 @@ def run(ctx: Ctx) -> None:
     ctx.call(iteration_order, "7")
     ctx.call(accumulator_rules, "1", "2")
     ctx.call(vt_result, "2r")
+    ctx.call(companion_snapshots, "2z")
     ctx.call(ramfile_guard, "3")
     ctx.call(regex_rules, "4")
     ctx.call(ext_listing, "5")
